@@ -55,7 +55,7 @@ def check_pair(name, pair, nodes, succ):
 @st.composite
 def digraph_case(draw):
     n = draw(st.integers(1, 9))
-    fam = draw(st.sampled_from(['random', 'random', 'dag', 'cycle', 'two-cycles', 'empty', 'sparse']))
+    fam = draw(st.sampled_from(['random', 'random', 'dag', 'cycle', 'two-cycles', 'empty', 'sparse', 'cycle+clique']))
     labels = draw(gen.label_scheme(n, ('int', 'str', 'tuple')))
     edges = []
     idx = list(range(n))
@@ -78,6 +78,13 @@ def digraph_case(draw):
         edges = [[i, (i + 1) % n] for i in idx] if n > 1 else []
         if n > 2 and draw(st.booleans()):
             edges.append([0, n // 2])
+    elif fam == 'cycle+clique' and n >= 7:
+        # two strongly connected components ranked differently by nodes and by arcs: a long one-way cycle and a small bidirected clique
+        m = draw(st.integers(3, min(4, n - 4)))
+        k = n - m
+        edges = [[i, (i + 1) % k] for i in range(k)] + [[k + a, k + b] for a in range(m) for b in range(m) if a != b]
+        if draw(st.booleans()):
+            edges.append([0, k])
     elif fam == 'two-cycles' and n >= 4:
         h = n // 2
         edges = [[i, (i + 1) % h] for i in range(h)] + [[h + i, h + (i + 1) % h] for i in range(h)]
@@ -125,7 +132,7 @@ def transmission_rule(kind):
 
 @st.composite
 def contact_case(draw):
-    gc = draw(gen.graph_case(1, 8, labels=('int', 'str', 'tuple'), weighted=False))
+    gc = draw(gen.graph_case(1, 8, labels=('int', 'str', 'tuple'), weighted=False, directed=draw(st.integers(0, 3)) == 0))   # one-way contacts too
     nodes, adj = oracles.adjacency(gc)
     pairs = [(u, v) for u in nodes for v in adj[u]]
     vals = st.sampled_from([0.1, 0.3, 0.45, 0.6, 0.8, 1.0])
@@ -229,6 +236,10 @@ def prop_contact(case):
         fails += check_pair(name, pair, nodes, succ)
     except Exception as e:
         fails.append(Failure('%s:exception:%s' % (name, exc_signature(e)), 'raised %r' % (e,)))
+    if gc.get('directed'):
+        # the bond-percolation estimators below are about undirected contact networks
+        nt = len(want_edges) >= 1 and len(want_edges) < len(pairs) and N >= 3
+        return Result(fails, nontrivial=nt, classes=['rule=' + case['rule'], 'directed-contact-network'] + (['nan-timing'] if 'nan' in case['dur'] + case['delay'] else []))
     # estimate_SIR_prob_size (bond percolation) with the percolated graph spied
     name = 'estimate_SIR_prob_size'
     cap = []
